@@ -22,6 +22,14 @@ class Ctx:
         self.old_ghost = old_ghost or {}
         self.extra = extra or {}
 
+    @property
+    def now_entry(self):
+        """the allocation clock when the function was entered (Contract.track_alloc)"""
+        return self.old_ghost.get("now", z3.Int("now0"))
+
+    def existed_at_entry(self, ref_term, sort):
+        return self.ex.born(sort)(ref_term) < self.now_entry
+
     def __getitem__(self, name):
         return self.args[name]
 
@@ -54,7 +62,8 @@ class Contract:
     def __init__(self, target, params=None, requires=(), ensures=(), exc_ensures=(), raises=None,
                  ret=None, may_raise=(), modifies=(), loops=None, props=(), assumed=False, replay=None,
                  inline=False, uf=False, cm_contract=None, kind="function", note="", witnesses=(),
-                 reads_heap=False, unroll_while=0, self_type=None, verify=True, inline_callees=False, cm_body=None, local_types=None, ghost_init=None, custom=None, opaque_externals=False, fresh_result=False, definitions=(), fid=None):
+                 reads_heap=False, unroll_while=0, self_type=None, verify=True, inline_callees=False, cm_body=None, local_types=None, ghost_init=None, custom=None, opaque_externals=False, fresh_result=False, definitions=(), fid=None, track_alloc=False):
+        self.track_alloc = track_alloc
         self.target = target
         self.module, self.qual = target.split(":")
         self.params = params  # dict name -> Ty (None => from annotations)
@@ -474,6 +483,8 @@ class World:
         else:
             ex.assumptions_used.add(f"callee contract {c.fid} (verified separately)")
         old_heap = ex.snapshot_heap()
+        if ex.track_alloc:
+            ex.now()
         old_ghost = dict(ex.ghost)
         # exceptional exits
         classes = list(c.may_raise)
@@ -494,6 +505,11 @@ class World:
         else:
             res = ex.fresh(f"{c.qual}_ret", c.ret)
         res = ex.force(res)
+        if ex.track_alloc:
+            if c.modifies or not (c.uf or c.ret is None):
+                ex.tick()   # the callee may have allocated
+            if not (c.fresh_result and isinstance(c.ret, Ref)):
+                ex.assume_allocated(res)
         cx2 = Ctx(ex, bound, result=res, old_heap=old_heap, old_ghost=old_ghost)
         for nm, f in c.ensures:
             r = f(cx2)
